@@ -125,6 +125,11 @@ func Gen(t *rapid.T, o Opts) Prog {
 			g.Mods = append(g.Mods, m)
 		}
 	}
+	return GenBehaviours(t, g)
+}
+
+// GenBehaviours draws what every module of a given graph does.
+func GenBehaviours(t *rapid.T, g gdsl.Graph) Prog {
 	p := Prog{Graph: g, Beh: map[string]dslrt.Behaviour{}, Seed: rapid.Uint64Range(1, 1<<30).Draw(t, "seed")}
 	for i, m := range g.Mods {
 		b := dslrt.Behaviour{Kind: m.Kind, Seed: p.Seed*1000 + uint64(i)}
